@@ -57,7 +57,12 @@ impl UnaryOp {
 
     pub fn evaluate(&self, value: Value) -> Result<Value, TracedInterpreterError> {
         match self {
-            UnaryOp::Positive => Ok(value),
+            UnaryOp::Positive => {
+                // Like negation, this only makes sense for numbers (and the
+                // static analyzer rejects anything else).
+                let number: f64 = value.try_into()?;
+                Ok(number.into())
+            }
             UnaryOp::Negative => {
                 let number: f64 = -value.try_into()?;
                 Ok(number.into())
